@@ -24,7 +24,7 @@
 (* Stmt ::= [k:"as",  t:[s,lo,hi], al, e:Expr]   target bits lo..hi-1 of s *)
 (*        | [k:"asi", arr:Seq(sig), i:Expr, e:Expr]   arr[i] := e (whole)  *)
 (*        | [k:"if",  c:Expr, th:Seq(Stmt), el:Seq(Stmt)]                  *)
-(* Expr ::= [k:"sig", s, lo, hi] | [k:"lit", v, w] | [k:"idx", arr, i]     *)
+(* Expr ::= [k:"sig", s, lo, hi] | [k:"lit", v, w] | [k:"idx",arr,i,lo,hi]*)
 (*        | [k:"not", a, w] | [k:"bin", op, a, b, w]   (operands width w)  *)
 (*        | [k:"cmp", op, a, b] | [k:"ite", c, a, b]                       *)
 (*        | [k:"zext", a] | [k:"trunc", a, w] | [k:"sext", a, aw, w]       *)
@@ -47,7 +47,7 @@ RECURSIVE Eval(_, _)
 Eval(e, val) ==
   CASE e.k = "sig"   -> Slice(val[e.s], e.lo, e.hi)
     [] e.k = "lit"   -> e.v
-    [] e.k = "idx"   -> val[e.arr[Eval(e.i, val) + 1]]
+    [] e.k = "idx"   -> Slice(val[e.arr[Eval(e.i, val) + 1]], e.lo, e.hi)
     [] e.k = "not"   -> (Pow2(e.w) - 1) - Eval(e.a, val)
     [] e.k = "bin"   ->
          LET a == Eval(e.a, val)  b == Eval(e.b, val)  m == Pow2(e.w) IN
@@ -113,7 +113,8 @@ RECURSIVE ERefs(_, _)
 ERefs(D, e) ==
   CASE e.k = "sig"  -> {<<D.sigs[e.s].rep, b>> : b \in e.lo .. e.hi - 1}
     [] e.k = "lit"  -> {}
-    [] e.k = "idx"  -> ArrBits(D, e.arr) \cup ERefs(D, e.i)
+    [] e.k = "idx"  -> UNION {{<<D.sigs[e.arr[j]].rep, b>> : b \in e.lo .. e.hi - 1} : j \in DOMAIN e.arr}
+                        \cup ERefs(D, e.i)
     [] e.k \in {"not", "zext", "trunc", "sext", "red"} -> ERefs(D, e.a)
     [] e.k \in {"bin", "cmp"} -> ERefs(D, e.a) \cup ERefs(D, e.b)
     [] e.k = "ite"  -> ERefs(D, e.c) \cup ERefs(D, e.a) \cup ERefs(D, e.b)
